@@ -303,3 +303,98 @@ def feasible_from(body, starts, ev=None):
         seen = cur
         only = seen | anc
     return seen
+
+
+def run_cell(body, ev, watch, max_steps=2000):
+    """Forward abstract execution of one fully decided cell: follows the single path the cell determines from the entry,
+    keeping the integer values of locals that are determined (constants, values given by `ev`, arithmetic on them; an
+    accumulator updated along the path is followed exactly).  `watch(block)` selects call blocks whose argument values
+    are recorded.  Stops at a return, at a switch the cell does not decide, or after max_steps.
+    Returns [(block idx, [arg values or None])]."""
+    prov = flow.Prov(body)
+    env = {}
+    out = []
+
+    def val_op(op):
+        if "const" in op:
+            return const_int(op)
+        pl = op.get("copy") or op.get("move")
+        if pl is None:
+            return None
+        if not pl["p"] and pl["l"] in env:
+            return env[pl["l"]]
+        if not pl["p"] and pl["l"] > body.arg_count:
+            return None if pl["l"] in assigned else eval_term(prov.operand(op), ev)
+        return eval_term(prov.operand(op), ev)
+    assigned = set()
+    bi = 0
+    steps = 0
+    while steps < max_steps:
+        steps += 1
+        b = body.blocks[bi]
+        for st in b.stmts:
+            if st["k"] != "assign":
+                continue
+            pl = st["place"]
+            if pl["p"]:
+                continue
+            rv = st["rv"]
+            v = None
+            if rv["k"] == "use":
+                v = val_op(rv["op"])
+            elif rv["k"] == "bin":
+                a, c = val_op(rv["a"]), val_op(rv["b"])
+                if isinstance(a, int) and isinstance(c, int):
+                    op = rv["op"].replace("WithOverflow", "")
+                    if op in _ARITH:
+                        try:
+                            v = _ARITH[op](a, c)
+                        except Exception:
+                            v = None
+                    else:
+                        v = _cmp(op, a, c)
+            elif rv["k"] == "un" and rv["op"] == "Not":
+                a = val_op(rv["a"])
+                v = (0 if a else 1) if isinstance(a, int) else None
+            elif rv["k"] == "cast":
+                v = val_op(rv["op"])
+            assigned.add(pl["l"])
+            if isinstance(v, int):
+                env[pl["l"]] = v
+            else:
+                env.pop(pl["l"], None)
+        t = b.term
+        if t is None or t["k"] in ("return", "unreachable"):
+            break
+        if t["k"] == "switch":
+            v = val_op(t["discr"])
+            if not isinstance(v, int):
+                v = eval_term(prov.operand(t["discr"]), ev)
+            if not isinstance(v, int):
+                break
+            nxt = t["otherwise"]
+            for c, tg in t["targets"]:
+                if c == v:
+                    nxt = tg
+            bi = nxt
+            continue
+        if t["k"] == "call":
+            if watch(b):
+                out.append((b.idx, [val_op(a) for a in t["args"]]))
+            d = t["dest"]
+            if not d["p"]:
+                assigned.add(d["l"])
+                v = eval_term(prov.call_term(t), ev)
+                if isinstance(v, int):
+                    env[d["l"]] = v
+                else:
+                    env.pop(d["l"], None)
+            if t.get("target") is None:
+                break
+            bi = t["target"]
+            continue
+        nx = b.succs()
+        if len(nx) != 1:
+            break
+        bi = nx[0]
+    return out
